@@ -3,6 +3,7 @@ from __future__ import absolute_import, division, print_function
 from operator import getitem
 
 from tornado import gen
+from tornado.concurrent import Future
 
 from dask.utils import apply
 from distributed.client import default_client
@@ -133,13 +134,28 @@ class gather(core.Stream):
     buffer
     scatter
     """
+    def __init__(self, *args, **kwargs):
+        # tail of the chain of pending updates: results are emitted in the
+        # order in which they arrived, whatever order the cluster finishes in
+        self._last = None
+        super().__init__(*args, **kwargs)
+
     @gen.coroutine
     def update(self, x, who=None, metadata=None):
         client = default_client()
 
         self._retain_refs(metadata)
-        result = yield client.gather(x, asynchronous=True)
-        result2 = yield self._emit(result, metadata=metadata)
+        previous, done = self._last, Future()
+        self._last = done
+        try:
+            result = yield client.gather(x, asynchronous=True)
+            if previous is not None:
+                yield previous
+            result2 = yield self._emit(result, metadata=metadata)
+        finally:
+            done.set_result(None)
+            if self._last is done:
+                self._last = None
         self._release_refs(metadata)
 
         raise gen.Return(result2)
